@@ -418,6 +418,7 @@ pub fn run_case(c: &Case) -> Measured {
     // worst case the sink cap allows; the exact bound is judged afterwards
     let hard = TICK_FACTOR * (c.data.len() as u64 + SINK_CAP) + TICK_CONST;
     let obs = sut::new_obs(hard);
+    obs.borrow_mut().tick_input_len = Some(c.data.len() as u64);
     let mut ctor_refused = false;
     let mut consumed = c.data.len() as u64;
     crate::alloc::reset();
@@ -661,6 +662,7 @@ fn fam_raw_history(ctx: &CaseCtx, cov: &mut Cov) -> CaseOut {
             }
             let hard = TICK_FACTOR * (c.data.len() as u64 + SINK_CAP) + TICK_CONST;
             let obs = sut::new_obs(hard);
+            obs.borrow_mut().tick_input_len = Some(c.data.len() as u64);
             crate::alloc::reset();
             let before = sink.len();
             let r = sut::raw_lzma2_decompress(&mut d, &c.data, ReaderKind::Slice, &sink, &obs);
@@ -700,6 +702,7 @@ fn fam_raw_history(ctx: &CaseCtx, cov: &mut Cov) -> CaseOut {
             }
             let hard = TICK_FACTOR * (data.len() as u64 + SINK_CAP) + TICK_CONST;
             let obs = sut::new_obs(hard);
+            obs.borrow_mut().tick_input_len = Some(data.len() as u64);
             crate::alloc::reset();
             let before = sink.len();
             let r = sut::raw_lzma_decompress(&mut d, data, ReaderKind::Slice, &sink, &obs);
